@@ -37,6 +37,9 @@ MALFORMED = [
  ('dlpoly-rows-not-multiple-of-4', model({('Tabulation', 'target'): 'DL_POLY', ('Tabulation', 'nr'): '13'})),
  ('not-an-ini-file', 'this is not\nan ini file at all\n'),
  ('unresolvable-placeholder', model({('Pair', 'O-O'): 'as.buck ${nothere} 0.3 32.0'})),
+ ('cyclic-placeholder-self', '[Variables]\nrho : ${rho}\n\n' + model({('Pair', 'O-O'): 'as.buck 1000.0 ${rho} 32.0'})),
+ ('cyclic-placeholder-pair', '[Variables]\nA : ${B}\nB : ${A}\n\n' + model({('Pair', 'O-O'): 'as.buck ${A} 0.3 32.0'})),
+ ('bad-placeholder-syntax', model({('Pair', 'O-O'): 'as.buck $1000.0 0.3 32.0'})),
  ('spline-one-part', model({('Pair', 'O-O'): 'spline(as.buck 1000.0 0.3 32.0)'})),
  ('spline-two-parts', model({('Pair', 'O-O'): 'spline(as.zbl 8 8 >=0.8 exp_spline)'})),
  ('spline-four-parts', model({('Pair', 'O-O'): 'spline(as.zbl 8 8 >=0.8 exp_spline >=1.4 as.buck 1000.0 0.3 32.0 >=3 as.zero)'})),
